@@ -5,7 +5,7 @@ from harness import core, aclhist
 
 PROP = "C19"
 TRACE_MODULES = ["Trace_Acl"]
-WEIGHTS = dict(UngroupPorts=8, SetPlatform=4, Group=1, Resequence=1, Reparse=1)
+WEIGHTS = dict(UngroupPorts=8, SetPlatform=4, Group=2, Append=2, Insert=1, Resequence=1, Reparse=1)
 
 
 def run(tier, seed):
